@@ -348,6 +348,30 @@ def window_rule(F, R):
                     else:
                         out.append('%s(..)' % (callee_path(d[2]) or '?'))
                 return out
+        for _ in range(4):
+            # through single-assignment temporaries
+            if rv['k'] == 'use' and 'pl' in rv['op'] and not rv['op']['pl']['p']:
+                d1 = b.single_def(rv['op']['pl']['l'])
+                if d1 and d1[0] == 'stmt' and d1[3]['rv']['k'] == 'use' and b.local_name(rv['op']['pl']['l']) is None:
+                    rv = d1[3]['rv']
+                    continue
+            break
+        if rv['k'] == 'use' and 'pl' in rv['op'] and rv['op']['pl']['p'] and rv['op']['pl']['p'][-1][0] == 'field' \
+                and rv['op']['pl']['p'][-1][2] == 'frame':
+            # `entry.frame` where `entry` is what an iterator over the buffered frames yielded
+            base = rv['op']['pl']['l']
+            for _ in range(4):
+                d1 = b.single_def(base)
+                if d1 and d1[0] == 'stmt' and d1[3]['rv']['k'] in ('use', 'ref'):
+                    src = d1[3]['rv']['op']['pl'] if d1[3]['rv']['k'] == 'use' and 'pl' in d1[3]['rv']['op'] else d1[3]['rv'].get('pl')
+                    if src is None:
+                        break
+                    base = src['l']
+                    continue
+                break
+            ds = b.defs().get(base, [])
+            if ds and all(d[0] == 'call' and (d[2].get('callee') or {}).get('name') in ('next', 'next_back') for d in ds):
+                return ['<I as std::iter::Iterator>::next(..).frame']
         return [expand_consts(describe_rv(b, rv, depth=8, at=bb))]
     stores = []
     for bb, _, s in b.stmts():
